@@ -62,7 +62,7 @@ package sharediterator
 //@     ghost cur *sharediterator.iteratorState = nil
 //@     ghost loaded = false
 //@     after call context.Background returning c : bg = c ; bgMade = true
-//@     before call (*sharediterator.iteratorReader).Read args _, cx, b : assert bgMade && cx == bg
-//@     after call (*atomic.Pointer).Load returning st : cur = st ; loaded = true
-//@     before call (*atomic.Pointer).Store args _, ns : assert loaded && ns != nil && len(ns.items) == len(cur.items) + read && (e != nil ==> ns.err == e) && (e == nil ==> ns.err == cur.err)
-//@     before call (*atomic.Pointer).Store args _, ns : assert forall j int :: 0 <= j && j < len(cur.items) ==> ns.items[j] == cur.items[j]
+//@     before call (*sharediterator.iteratorReader*).Read args _, cx, b : assert bgMade && cx == bg
+//@     after call (*atomic.Pointer*).Load returning st : cur = st ; loaded = true
+//@     before call (*atomic.Pointer*).Store args _, ns : assert loaded && ns != nil && len(ns.items) == len(cur.items) + read && (e != nil ==> ns.err == e) && (e == nil ==> ns.err == cur.err)
+//@     before call (*atomic.Pointer*).Store args _, ns : assert forall j int :: 0 <= j && j < len(cur.items) ==> ns.items[j] == cur.items[j]
